@@ -82,7 +82,6 @@ import dawgie.pl.schedule as S  # noqa: E402
 import dawgie.security  # noqa: E402
 import pydot  # noqa: E402
 
-from dawgie.pl.jobinfo import State  # noqa: E402
 
 for _m in (S, F, dawgie.pl.dag, CH, M):
     assert _m.__file__.startswith(REPO + '/Python/'), _m.__file__
@@ -1410,7 +1409,7 @@ def explore_job(job, monitor_factory, frontier_hook=None):
 
 
 def tier_jobs(tier, seed, deadline, cfg, walk_cfg, drain=None, bias=None, depth_delta=0,
-              thorough_cap=4000, walks_quick=5, walks_thorough=12):
+              thorough_cap=600, walks_quick=5, walks_thorough=10):
     '''the common plan of universes / bounds used by c01..c05 (each harness may append its own jobs)'''
     jobs = []
 
@@ -1436,17 +1435,18 @@ def tier_jobs(tier, seed, deadline, cfg, walk_cfg, drain=None, bias=None, depth_
                     walks_quick, 7 + (k + workers) % 6, sample=(k in (1, 5) and len(targets) == 2),
                 )  # fmt: skip
     else:
+        # the long jobs first (no tail when they are spread over the 16 processes)
+        for k, spec in enumerate(curated_specs()):
+            for targets, workers in ((['T1'], 1), (['T1'], 2), (['T1', 'T2'], 1), (['T1', 'T2'], 3)):
+                job(
+                    Universe(spec, targets, workers), 8 + depth_delta, 10 * thorough_cap,
+                    2 * walks_thorough, 18,
+                )  # fmt: skip
         for k, spec in enumerate(all_specs(4)):
             job(
                 Universe(spec, ['T1', 'T2'], 2), 7 + depth_delta, thorough_cap,
                 walks_thorough, 14, sample=k in (40, 700),
             )  # fmt: skip
-        for k, spec in enumerate(curated_specs()):
-            for targets, workers in ((['T1'], 1), (['T1'], 2), (['T1', 'T2'], 1), (['T1', 'T2'], 3)):
-                job(
-                    Universe(spec, targets, workers), 8 + depth_delta, 5 * thorough_cap,
-                    2 * walks_thorough, 18,
-                )  # fmt: skip
     return jobs
 
 
@@ -1467,11 +1467,13 @@ def run_tier(prop, tier, seed, jobs, job_fn, monitor_factory, rule, clauses, t0,
 BOUND_TEXT = (
     'real schedule/farm code on synthetic engines.  quick: 11 curated DAGs (<= 4 algorithms; chains, diamonds, '
     'task/analysis mixes) x {1 target/1 worker, 1 target/2 workers, 2 targets/2 workers}: ALL event sequences '
-    'of length <= 4..6 (3..5 for the 4-node graphs) with equal states merged, plus 5 seeded random histories '
+    'of length <= 4..6 (3..5 for the 4-node graphs) with equal states merged, plus 4..6 seeded random histories '
     'of length 7..12 per universe.  thorough: every DAG on <= 4 topologically numbered algorithms x every '
-    'task/analysis assignment (1098 graphs) x 2 targets x 2 workers: event sequences of length <= 7 under a '
-    'per-graph transition cap, the curated graphs with 1..3 workers to length 8, plus seeded random histories '
-    'of length 14..18 (16 processes)'
+    'task/analysis assignment (1098 graphs) x 2 targets x 2 workers: breadth-first event sequences of length '
+    '<= 7 cut at 600 transitions per graph (so NOT exhaustive), the curated graphs x {1,2 targets} x {1,2,3 '
+    'workers} to length 8 cut at 6000 transitions, plus 10..20 seeded random histories of length 14..18 per '
+    'universe (16 processes; a wall-clock guard may cut further on a loaded machine and is reported as '
+    'truncated)'
 )
 
 RULE = (
